@@ -53,6 +53,8 @@ const (
 	// (checks { enabled = [] }) emits.  Without it a defect that hides a check from its name in BOTH runs of a
 	// metamorphic pair would go unnoticed.
 	mDefault = "default-enabled-list"
+	// mOfflineByName (binary stages): `--offline` must emit exactly what `--disabled <every checks.OnlineChecks name>` emits.
+	mOfflineByName = "--offline==--disabled(online names)"
 )
 
 var mechanisms = []string{mDefault, mCfgDisabled, mCLIDisabled, mRuleDisable, mCfgEnabled, mCLIEnabled, mOffline}
@@ -1013,37 +1015,114 @@ type jsonReport struct {
 	Lines    []int  `json:"lines"`
 }
 
+type ciRepo struct{ key, top string }
+
+// lastRepo is the repository of the `pint ci` document being tested (cases run one at a time within a process).
+var lastRepo ciRepo
+
 func runBinary(bin string, c Case, url string, flags []string, v variant) ([]problem, error) {
-	dir, err := os.MkdirTemp("", "c08bin-")
-	if err != nil {
-		return nil, err
-	}
-	defer os.RemoveAll(dir)
-	var paths []string
-	for _, f := range c.Files {
-		if f.Removed {
-			continue
+	// the git repository of a `pint ci` document is built once and reused by all its runs (only the configuration
+	// file, which lives outside the repository, changes between runs)
+	repoKey := c.Kind + "\x00" + url + "\x00" + filesKey(c.Files)
+	reuse := c.Kind == "binary-ci" && lastRepo.key == repoKey
+	top := lastRepo.top
+	if !reuse {
+		if lastRepo.top != "" {
+			os.RemoveAll(lastRepo.top)
+			lastRepo = ciRepo{}
 		}
-		p := filepath.Join(dir, f.Name)
-		if err := os.WriteFile(p, []byte(strings.ReplaceAll(f.Content, urlMark, url)), 0o644); err != nil {
+		var err error
+		if top, err = os.MkdirTemp("", "c08bin-"); err != nil {
 			return nil, err
 		}
-		paths = append(paths, f.Name)
+		if c.Kind == "binary-ci" {
+			lastRepo = ciRepo{key: repoKey, top: top}
+		} else {
+			defer os.RemoveAll(top)
+		}
 	}
-	if err := os.WriteFile(filepath.Join(dir, ".pint.hcl"), []byte(buildConfig(c, v, url)), 0o644); err != nil {
+	dir := filepath.Join(top, "repo")
+	if !reuse {
+		if err := os.Mkdir(dir, 0o755); err != nil {
+			return nil, err
+		}
+	}
+	_ = os.Remove(filepath.Join(top, "out.json"))
+	write := func(removed bool) ([]string, error) {
+		var paths []string
+		for _, f := range c.Files {
+			if f.Removed != removed {
+				continue
+			}
+			if err := os.WriteFile(filepath.Join(dir, f.Name), []byte(strings.ReplaceAll(f.Content, urlMark, url)), 0o644); err != nil {
+				return nil, err
+			}
+			paths = append(paths, f.Name)
+		}
+		return paths, nil
+	}
+	// the configuration lives outside the checked directory
+	if err := os.WriteFile(filepath.Join(top, "pint.hcl"), []byte(buildConfig(c, v, url)), 0o644); err != nil {
 		return nil, err
 	}
-	args := append([]string{"--no-color", "--log-level", "error"}, flags...)
-	args = append(args, "lint", "--json", "out.json", "--min-severity", "info")
-	args = append(args, paths...)
+	args := append([]string{"--no-color", "--log-level", "error", "--config", "../pint.hcl"}, flags...)
+	if c.Kind == "binary-ci" && reuse {
+		args = append(args, "ci", "--base-branch", "main", "--json", "../out.json")
+	} else if c.Kind == "binary-ci" {
+		// `pint ci`: a tiny repository whose main branch holds the file that the feature branch removes, and whose
+		// feature branch adds every other rule file (entries: added / removed)
+		git := func(a ...string) error {
+			cmd := exec.Command("git", a...)
+			cmd.Dir = dir
+			cmd.Env = append(os.Environ(), "GIT_CONFIG_GLOBAL=/dev/null", "GIT_CONFIG_SYSTEM=/dev/null",
+				"GIT_AUTHOR_NAME=c08", "GIT_AUTHOR_EMAIL=c08@example.com", "GIT_COMMITTER_NAME=c08", "GIT_COMMITTER_EMAIL=c08@example.com")
+			if out, err := cmd.CombinedOutput(); err != nil {
+				return fmt.Errorf("%w: git %v: %v\n%s", errInfra, a, err, out)
+			}
+			return nil
+		}
+		if err := os.WriteFile(filepath.Join(dir, "README"), []byte("rules\n"), 0o644); err != nil {
+			return nil, err
+		}
+		removedPaths, err := write(true)
+		if err != nil {
+			return nil, err
+		}
+		steps := [][]string{{"init", "-q", "--initial-branch=main", "."}, {"add", "."}, {"commit", "-q", "-m", "base"}, {"checkout", "-q", "-b", "feature"}}
+		if len(removedPaths) > 0 {
+			steps = append(steps, append([]string{"rm", "-q"}, removedPaths...))
+		}
+		for _, st := range steps {
+			if err := git(st...); err != nil {
+				return nil, err
+			}
+		}
+		if _, err := write(false); err != nil {
+			return nil, err
+		}
+		for _, st := range [][]string{{"add", "."}, {"commit", "-q", "-m", "add rules"}} {
+			if err := git(st...); err != nil {
+				return nil, err
+			}
+		}
+		args = append(args, "ci", "--base-branch", "main", "--json", "../out.json")
+	} else {
+		paths, err := write(false)
+		if err != nil {
+			return nil, err
+		}
+		args = append(args, "lint", "--json", "../out.json", "--min-severity", "info")
+		args = append(args, paths...)
+	}
 	var out []byte
 	var b []byte
+	var err error
 	for attempt := 0; ; attempt++ {
 		cmd := exec.Command(bin, args...)
 		cmd.Dir = dir
 		var runErr error
 		out, runErr = cmd.CombinedOutput() // exit status 1 = problems found
-		b, err = os.ReadFile(filepath.Join(dir, "out.json"))
+		b, err = os.ReadFile(filepath.Join(top, "out.json"))
 		if err == nil {
 			break
 		}
@@ -1087,6 +1166,26 @@ func binFlags(c Case) []string {
 
 func checkBinaryCase(bin string, c Case, srv *sharedServer, base []problem) (bool, error) {
 	var err error
+	if c.Mechanism == mOfflineByName {
+		var byNameFlags []string
+		for _, n := range checks.OnlineChecks {
+			byNameFlags = append(byNameFlags, "--disabled", n)
+		}
+		byName, err := runBinary(bin, c, srv.URL, byNameFlags, variant{})
+		if err != nil {
+			return false, err
+		}
+		offline, err := runBinary(bin, c, srv.URL, []string{"--offline"}, variant{})
+		if err != nil {
+			return false, err
+		}
+		missing, extra := diffSets(multiset(byName), multiset(offline))
+		if len(missing) > 0 || len(extra) > 0 {
+			return true, fmt.Errorf("%s: --offline does not emit what disabling every online check by name emits\n  only with --disabled <names> (%d):\n    %s\n  only with --offline (%d):\n    %s",
+				c.Kind, len(missing), strings.Join(head(missing, 12), "\n    "), len(extra), strings.Join(head(extra, 12), "\n    "))
+		}
+		return len(reporters(byName)) > 1, nil
+	}
 	if base == nil {
 		if base, err = runBinary(bin, c, srv.URL, nil, variant{}); err != nil {
 			return false, fmt.Errorf("baseline: %w", err)
@@ -1104,7 +1203,21 @@ func checkBinaryCase(bin string, c Case, srv *sharedServer, base []problem) (boo
 	return nontrivial, compare(c, base, got, c.Name, c.Mechanism)
 }
 
-func TestPropBinary(t *testing.T) {
+// TestPropBinary: the relations through `pint lint`; TestPropBinaryCI: through `pint ci` on a tiny git repository
+// (base commit + a feature branch that adds the rule files and removes one), where Prometheus servers and
+// entry states are set up by a different code path.
+func TestPropBinary(t *testing.T)   { propBinary(t, "binary") }
+func TestPropBinaryCI(t *testing.T) { propBinary(t, "binary-ci") }
+
+func dropRepo() {
+	if lastRepo.top != "" {
+		os.RemoveAll(lastRepo.top)
+		lastRepo = ciRepo{}
+	}
+}
+
+func propBinary(t *testing.T, kind string) {
+	t.Cleanup(dropRepo)
 	bin := os.Getenv("VERIF_PINT_BIN")
 	if bin == "" {
 		t.Skip("VERIF_PINT_BIN not set")
@@ -1114,14 +1227,20 @@ func TestPropBinary(t *testing.T) {
 	var focus *[2]string
 	rapid.Check(t, func(rt *rapid.T) {
 		doc := genDoc(rt)
-		doc.Kind = "binary"
+		doc.Kind = kind
 		for i := range doc.Switches { // the JSON report carries no rule kind or state: keep rule-block switches match-less
 			doc.Switches[i].MatchKind = ""
 			doc.Switches[i].MatchState = nil
 		}
-		doc.Command = "lint" // the binary stage runs `pint lint`: every entry is unmodified
+		doc.Command = "lint" // `pint lint`: every entry is unmodified
 		for i := range doc.Files {
 			doc.Files[i].State = ""
+		}
+		if kind == "binary-ci" {
+			doc.Command = "ci" // every file is added by the branch (the removed file is removed by it)
+			for i := range doc.Files {
+				doc.Files[i].State = "added"
+			}
 		}
 		srv := newServer(doc)
 		defer srv.Close()
@@ -1129,19 +1248,22 @@ func TestPropBinary(t *testing.T) {
 		if err != nil {
 			rt.Fatalf("baseline: %v", err) // no recorded case: inconclusive
 		}
-		for _, m := range []string{mDefault, mCLIDisabled, mCLIEnabled, mOffline} {
+		for _, m := range []string{mDefault, mOfflineByName, mCLIDisabled, mCLIEnabled, mOffline} {
 			names := checks.CheckNames
-			if m == mOffline || m == mDefault {
+			if m == mOffline || m == mDefault || m == mOfflineByName {
 				names = []string{""}
 			}
 			for _, n := range names {
 				if focus != nil && (focus[0] != n || focus[1] != m) {
 					continue
 				}
+				if kind == "binary-ci" && n != "" && reporters(base)[n] == 0 {
+					continue // `pint ci` runs are slow: names that report nothing in the baseline are left to the lint stage
+				}
 				c := doc
 				c.Name, c.Mechanism = n, m
 				nontrivial, err := checkBinaryCase(bin, c, srv, base)
-				cls := "binary " + m + " " + n
+				cls := kind + " " + m + " " + n
 				rec.Case(cls, nontrivial, cls+"\x00"+c.Command+"\x00"+baseConfig(c)+"\x00"+filesKey(c.Files), func() any { return sample(c, base) })
 				if errors.Is(err, errInfra) {
 					rt.Fatalf("%v", err) // no recorded case: inconclusive
@@ -1183,7 +1305,8 @@ func TestReplay(t *testing.T) {
 		if len(base.MetaErrs) > 0 {
 			t.Fatalf("Meta().Online disagrees with the online list: %s", strings.Join(base.MetaErrs, "; "))
 		}
-	case "binary":
+	case "binary", "binary-ci":
+		t.Cleanup(dropRepo)
 		bin := os.Getenv("VERIF_PINT_BIN")
 		if bin == "" {
 			t.Skip("VERIF_PINT_BIN not set")
